@@ -205,6 +205,15 @@ def outcome (s : State) : Outcome :=
     if full || out then { over := true, winner := flatsWinner, road := false, whiteFlats := wf, blackFlats := bf }
     else { over := false, winner := .none, road := false, whiteFlats := wf, blackFlats := bf }
 
+/-- the PTN result of a finished game by the rule book; `none` while the game is running -/
+def result (s : State) : Option String :=
+  let o := outcome s
+  if !o.over then none else
+  match o.winner with
+  | .none => some "1/2-1/2"
+  | .white => some (if o.road then "R-0" else "F-0")
+  | .black => some (if o.road then "0-R" else "0-F")
+
 /-! ### abstraction from the bit-level position -/
 
 def abs (p : Tak.Pos) : State :=
